@@ -368,7 +368,9 @@ impl<'a> G<'a> {
             7 => {
                 // rcomb_base reads memory at [.., x_addr=s13?]; use zeros region: safe layout from docs:
                 // [T7..T0, p1, p0, r1, r0, x_addr, z_addr, a_addr]
-                "padw padw padw push.1000 push.1001 push.1002 movdn.14 movdn.14 movdn.14 rcomb_base".into()
+                // (addresses 2000.. are used by nothing else: the word holding the randomness must
+                // have its last two elements empty, see crypto_ops.md)
+                "padw padw padw push.2000 push.2001 push.2002 movdn.14 movdn.14 movdn.14 rcomb_base".into()
             }
             _ => "hperm".into(),
         }
